@@ -257,6 +257,11 @@ func concurrentPersist(c *ctx) string {
 		wg.Add(1)
 		go func(j int) {
 			defer wg.Done()
+			defer func() {
+				if r := recover(); r != nil {
+					errs <- fmt.Sprintf("goroutine %d: PANIC %v", j, r)
+				}
+			}()
 			jb := jobs[j]
 			path := zh.TmpPath(fmt.Sprintf("c04p%d", j))
 			defer os.Remove(path)
